@@ -201,7 +201,12 @@ func F2(thorough bool) []*Program {
 	// Bind written around Async
 	add(&Program{Desc: "bind-outside-async", Types: typeNames(3), Ifaces: map[string]string{"I0": "T1"}, Decls: []Decl{{
 		Name: "InitP", Request: "*T0", Provs: []Prov{
-			func() Prov { p := fn("NewT1", nil, []string{"*T1"}, false); p.Bind = "I0"; p.BindOutside = true; return p }(),
+			func() Prov {
+				p := fn("NewT1", nil, []string{"*T1"}, false)
+				p.Bind = "I0"
+				p.BindOutside = true
+				return p
+			}(),
 			fn("NewT2", nil, []string{"*T2"}, false),
 			fn("NewT0", []string{"I0", "*T2"}, []string{"*T0"}, false),
 		}}}})
@@ -652,7 +657,11 @@ func FH() []*Program {
 		ExtraImports: []string{`"strings"`},
 		Decls: []Decl{
 			{Name: "InitP", Request: "*T0", Provs: []Prov{fn("NewT0", []string{"*strings.Builder"}, []string{"*T0"}, false)}},
-			{Name: "InitQ", Request: "*T1", Provs: []Prov{func() Prov { p := fn("NewT1", []string{"*strings.Builder"}, []string{"*T1"}, false); p.Async = true; return p }()}}}})
+			{Name: "InitQ", Request: "*T1", Provs: []Prov{func() Prov {
+				p := fn("NewT1", []string{"*strings.Builder"}, []string{"*T1"}, false)
+				p.Async = true
+				return p
+			}()}}}})
 	// two files of one package, each with an async injector and different imports
 	out = append(out, &Program{Family: "FH", Desc: "two files, async injectors", Types: typeNames(3), Files: [][]int{{0}, {1}}, Decls: []Decl{
 		coreDecl("InitP", [][]int{{1, 2}, {}, {}}, 0b110, 0b010, -1, 0),
